@@ -347,12 +347,14 @@ def parse_vspec(path):
         if m:
             kw, arg = m.group(1), m.group(2).strip()
             if kw == 'fn':
-                cur = specs.setdefault(arg, dict(sig='', loops={}, before=[], top=''))
+                cur = specs.setdefault(arg, dict(sig='', loops={}, before=[], top='', attr=''))
                 sec = None
             elif kw == 'sig':
                 sec = ('sig',)
             elif kw == 'top':
                 sec = ('top',)
+            elif kw == 'attr':
+                sec = ('attr',)
             elif kw == 'loop':
                 sec = ('loop', int(arg))
                 cur['loops'][int(arg)] = ''
@@ -364,7 +366,9 @@ def parse_vspec(path):
             continue
         if cur is None or sec is None:
             continue
-        if sec[0] == 'sig':
+        if sec[0] == 'attr':
+            cur['attr'] += line + '\n'
+        elif sec[0] == 'sig':
             cur['sig'] += line + '\n'
         elif sec[0] == 'top':
             cur['top'] += line + '\n'
@@ -389,6 +393,8 @@ def splice(toks, body, spec):
         return toks
     out = list(toks)
     inserts = []  # (index, chunk) insert BEFORE token index
+    if spec.get('attr', '').strip():
+        inserts.append((0, _chunk(spec['attr'])))
     if spec['sig'].strip():
         inserts.append((body, _chunk(spec['sig'])))
     if spec['top'].strip():
